@@ -211,6 +211,7 @@ type c11Session struct {
 	server   string
 	alloc    bool
 	closeErr bool
+	srvClose bool // the session is ended by the application calling RequestServer.Close(), not by the peer
 	syms     []c11Sym
 	cut      int // >=0: after the lock-step part, write only that many bytes of one more OPEN packet, then hang up
 }
@@ -220,7 +221,11 @@ func (s c11Session) String() string {
 	for _, x := range s.syms {
 		p = append(p, x.String())
 	}
-	return fmt.Sprintf("%s alloc=%v closeerr=%v [%s] cut=%d", s.server, s.alloc, s.closeErr, strings.Join(p, " "), s.cut)
+	end := ""
+	if s.srvClose {
+		end = " ended-by-RequestServer.Close"
+	}
+	return fmt.Sprintf("%s alloc=%v closeerr=%v [%s] cut=%d%s", s.server, s.alloc, s.closeErr, strings.Join(p, " "), s.cut, end)
 }
 
 func fdCount() int {
@@ -246,6 +251,7 @@ func c11Scenario(s c11Session) explore.Scenario {
 			in, out := NewVPipe("c2s"), NewVPipe("s2c")
 			conn := &vduplex{in: in, out: out}
 			var serve func() error
+			var rsrv *RequestServer
 			nm := func(n string) string { return "/" + n }
 			if s.server == "rs" {
 				h = &c11Handler{data: map[string][]byte{"/f": []byte("abc"), "/g": []byte("xyz")}, CloseErr: s.closeErr}
@@ -253,7 +259,8 @@ func c11Scenario(s c11Session) explore.Scenario {
 				if s.alloc {
 					opts = append(opts, WithRSAllocator())
 				}
-				serve = NewRequestServer(conn, Handlers{h, h, h, h}, opts...).Serve
+				rsrv = NewRequestServer(conn, Handlers{h, h, h, h}, opts...)
+				serve = rsrv.Serve
 			} else {
 				root = scratchDir()
 				os.WriteFile(filepath.Join(root, "f"), []byte("abc"), 0o644)
@@ -454,6 +461,9 @@ func c11Scenario(s c11Session) explore.Scenario {
 					in.Write(p[:s.cut])
 				}
 			}
+			if s.srvClose && rsrv != nil {
+				rsrv.Close() // a graceful stop by the application while handles may still be open
+			}
 			in.CloseWrite()
 			for {
 				if _, err := readFrame(out); err != nil {
@@ -525,6 +535,8 @@ func classify(msg string) string {
 	switch {
 	case strings.Contains(msg, "issued twice"):
 		return "handle-reuse"
+	case strings.Contains(msg, "never-issued spellings") || strings.Contains(msg, "that was never issued, answered"):
+		return "handle-alias-served"
 	case strings.Contains(msg, "closed or was never issued"):
 		return "stale-handle-ok"
 	case strings.Contains(msg, "reached the handlers"):
@@ -591,7 +603,7 @@ func init() {
 						total.Bound = fmt.Sprintf("deadline hit inside depth %d", d)
 						return
 					}
-					s := c11Session{server: server, alloc: c.Arg("alloc", "0") == "1", syms: seq, cut: cut, closeErr: c.Arg("closeerr", "0") == "1"}
+					s := c11Session{server: server, alloc: c.Arg("alloc", "0") == "1", syms: seq, cut: cut, closeErr: c.Arg("closeerr", "0") == "1", srvClose: c.Arg("srvclose", "0") == "1"}
 					r := explore.Run(explore.Config{Prop: "C11", Strategy: "db", Bound: 0, Ctx: &sub}, c11Scenario(s))
 					total.Evaluations += r.Evaluations
 					total.States += r.States
@@ -658,6 +670,11 @@ func init() {
 						x.Args["closeerr"] = "1"
 						return x
 					}(),
+					func() reg.Job {
+						x := j("rs sessions depth 4, ended by RequestServer.Close()", "instr-w2", "rs", 4, 2, true, false, false, 600)
+						x.Args["srvclose"] = "1"
+						return x
+					}(),
 					j("os sessions depth 4, 2 handles, byte cuts", "instr-w2", "os", 4, 2, true, true, false, 900),
 					hj("rs hang-up with requests in flight W=2 db4", "instr-w2", "rs", 4, 600),
 					hj("rs hang-up with requests in flight W=8 db3", "instr", "rs", 3, 600),
@@ -671,6 +688,11 @@ func init() {
 				func() reg.Job {
 					x := j("rs sessions depth 3, handler Close returns an error", "instr-w2", "rs", 3, 2, false, false, false, 100)
 					x.Args["closeerr"] = "1"
+					return x
+				}(),
+				func() reg.Job {
+					x := j("rs sessions depth 3, ended by RequestServer.Close()", "instr-w2", "rs", 3, 2, false, false, false, 100)
+					x.Args["srvclose"] = "1"
 					return x
 				}(),
 				j("os sessions depth 3, 2 handles, byte cuts", "instr-w2", "os", 3, 2, false, true, false, 100),
